@@ -689,14 +689,25 @@ def oracle(case, obs):
                 bad('min>max', 'min_iter > max_iter must raise ValueError and change nothing: got %s, unchanged=%s' % (out, unchanged))
             return fails
         if not feasible:
+            off_in = o['offset'] != 0 and 0 <= p + o['offset'] < n
             ok_reject = out[:2] == ['raise', 'IndexError'] or (fortran and out[:2] == ['raise', 'FortranEngineError'])
-            if fortran and out[:2] == ['raise', 'SolutionError'] and o['errors'] == 'raise' and any(_nonfinite(B[i][p]) for i in obs['check']):
-                ok_reject = True     # the Fortran wrapper tests for pre-existing non-finite values first: still a rejection
+            if fortran and out[:2] == ['raise', 'SolutionError'] and o['errors'] == 'raise':
+                # the Fortran wrapper copies the offset period and tests for pre-existing non-finite values BEFORE the
+                # compiled code tests feasibility: still a rejection (no evaluation), though with another exception
+                seen = [B[i][p + o['offset']] if (off_in and i in obs['endo']) else B[i][p] for i in obs['check']]
+                if any(_nonfinite(x) for x in seen):
+                    ok_reject = True
             if not ok_reject or obs['events']:
                 bad('infeasible-period-served', 'solve_t(%d) on a %d-period span with lags=%d leads=%d must be rejected with IndexError; got %s after %d evaluation pass(es)'
                     % (t, n, L, Ld, out, obs['npasses']))
             if not unchanged:
-                bad('infeasible-period-changed', 'solve_t(%d) at an infeasible period changed values or status' % t)
+                only_copy = (not st_changed and off_in and all(i in obs['endo'] and q == p and A[i][q] == B[i][p + o['offset']] for (i, q) in changed))
+                if fortran and only_copy:
+                    bad('fortran|infeasible-after-offset|changed',
+                        'FortranEngine.solve_t(%d, offset=%d) at an infeasible period was rejected (%s) AFTER copying period t+offset into period t'
+                        % (t, o['offset'], out[1]))
+                else:
+                    bad('infeasible-period-changed', 'solve_t(%d) at an infeasible period changed values or status' % t)
             check_pass_logs(plogs)
             return fails
         if o['offset'] != 0 and not 0 <= p + o['offset'] < n:
